@@ -162,3 +162,41 @@ Proof.
     + rewrite String.eqb_refl. reflexivity.
     + destruct (String.eqb a n) eqn:Ea; simpl in *; [discriminate|]. apply IH. exact Ex.
 Qed.
+
+(** * Who finds the published scopes *)
+Lemma seen_once_published : forall who text,
+  (who = KChain \/ who = KHandler) -> In who text -> seen_by who text true = Some true.
+Proof.
+  intros who text Hw. induction text as [|t r IH]; intros Hin; [destruct Hin|].
+  cbn [seen_by]. destruct Hw as [Hw|Hw]; subst who; destruct t; cbn [orb]; try reflexivity;
+    apply IH; destruct Hin as [Hin|Hin]; try discriminate Hin; exact Hin.
+Qed.
+
+Lemma seen_skips_prefix : forall who pre rest b,
+  (who = KChain \/ who = KHandler) -> ~ In who pre ->
+  seen_by who (pre ++ KPublish :: rest) b = seen_by who rest true.
+Proof.
+  intros who pre rest b Hw. revert b. induction pre as [|t r IH]; intros b Hn.
+  - cbn [app seen_by]. destruct Hw as [Hw|Hw]; subst who; cbn [orb]; rewrite Bool.orb_true_r; reflexivity.
+  - cbn [app seen_by].
+    assert (Ht : t <> who) by (intros E; apply Hn; left; exact E).
+    assert (Hr : ~ In who r) by (intros E; apply Hn; right; exact E).
+    destruct Hw as [Hw|Hw]; subst who; destruct t; try (exfalso; apply Ht; reflexivity); apply IH; exact Hr.
+Qed.
+
+(** published before the chain is entered: middlewares and handler both find the scopes *)
+Lemma published_before_chain_seen_by_all : forall pre mid post b,
+  ~ In KChain pre -> ~ In KHandler pre -> In KChain (mid ++ KChain :: post) -> In KHandler (mid ++ KChain :: post) ->
+  seen_by KChain (pre ++ KPublish :: mid ++ KChain :: post) b = Some true
+  /\ seen_by KHandler (pre ++ KPublish :: mid ++ KChain :: post) b = Some true.
+Proof.
+  intros pre mid post b H1 H2 H3 H4. split.
+  - rewrite seen_skips_prefix by (auto). apply seen_once_published; auto.
+  - rewrite seen_skips_prefix by (auto). apply seen_once_published; auto.
+Qed.
+
+(** published inside the innermost closure only: the handler finds the scopes, the middlewares do not *)
+Lemma published_in_the_closure_refuted :
+  seen_by KChain [KChain; KPublish; KHandler] false = Some false
+  /\ seen_by KHandler [KChain; KPublish; KHandler] false = Some true.
+Proof. split; reflexivity. Qed.
